@@ -305,6 +305,53 @@ pub fn run(tier: Tier) -> i32 {
             }
         }
     }
+    // ---- a custom-checks file with the true values changes nothing else: faulty streams (OL stave stream and an
+    //      inner-barrel stave stream, each with an ITS system-id fault, an RDH reserved bit and a TDT reserved bit) x
+    //      3 ITS modes x {no file, all five keys at the truth, cdps only, OB keys only}: identical messages
+    let mut meta_runs = 0u64;
+    {
+        let ib_clean = {
+            let wsf = crate::c02::witnesses().into_iter().find(|x| x.name == "ib-fmt2-frames").expect("stave witness");
+            grammar::interleave(&wsf.links, &wsf.order)
+        };
+        let ib_bytes_clean: Vec<u8> = ib_clean.packets.iter().flat_map(|(_, p)| p.packet.bytes()).collect();
+        let ib_truth = Truth { cdps: ib_clean.packets.len() as u32, pht: ib_clean.packets.iter().filter(|(_, p)| p.packet.rdh.trigger_type & 0x10 != 0).count() as u32, version: 7, bytes: ib_bytes_clean };
+        let spoil = |clean: &[u8]| -> Vec<u8> {
+            let mut b = clean.to_vec();
+            let (walked, _) = fp_model::stream::walk(&b);
+            let o2 = walked[2].offset as usize;
+            b[o2 + 5] = 0x21; // system id of the third RDH
+            let o3 = walked[3].offset as usize;
+            b[o3 + 52] |= 0x01; // a reserved byte of RDH3 of the fourth RDH
+            b
+        };
+        for (sname, tr) in [("OL stave stream", &t), ("IB stave stream", &ib_truth)] {
+            for faulty in [false, true] {
+                let bytes = if faulty { spoil(&tr.bytes) } else { tr.bytes.clone() };
+                let tt = Truth { bytes, cdps: tr.cdps, pht: tr.pht, version: tr.version };
+                for mode in [vec!["check", "sanity", "its"], vec!["check", "all", "its"], vec!["check", "all", "its-stave"]] {
+                    let reference = run_cli(&tt, None, &mode);
+                    for (fname, subset) in [("all keys at the truth", 0b11111u32), ("cdps only", 0b00001), ("OB chip keys only", 0b11000), ("rdh_version only", 0b00100)] {
+                        meta_runs += 1;
+                        let with = run_cli(&tt, Some(&toml_for(subset, None, &tt)), &mode);
+                        match (&reference, &with) {
+                            (Ok(a), Ok(b)) => {
+                                if a.0 != b.0 || a.2 != b.2 {
+                                    rep.violation(Violation {
+                                        signature: format!("custom:file-with-true-values-changes-findings:{}", if a.0.difference(&b.0).next().is_some() { "lost" } else { "added" }),
+                                        description: format!("{sname}{}, `{}`: codes without a checks file {:?} (exit {:?}), with {fname} {:?} (exit {:?})", if faulty { " with faults" } else { "" }, mode.join(" "), a.0, a.2, b.0, b.2),
+                                        replay: json!({"mode": mode, "subset": subset, "stream": sname, "faulty": faulty}),
+                                    });
+                                }
+                            }
+                            (Err(e), _) | (_, Err(e)) => rep.violation(Violation { signature: "custom:crash".into(), description: e.clone(), replay: json!({"mode": mode, "subset": subset}) }),
+                        }
+                    }
+                }
+            }
+        }
+    }
+    rep.cov("true_value_file_metamorphic_runs", json!(meta_runs));
     // ---- trigger period product
     let mut states = 0u64;
     let mut transitions = 0u64;
